@@ -201,6 +201,9 @@ where
         cases,
         failure_persistence: None,
         max_shrink_iters: 400,
+        // shrinking re-executes the program under test: bound it in time as well (a limit on effort
+        // spent minimising a failure that is already established; never a verdict)
+        max_shrink_time: 25_000,
         max_global_rejects: 100_000,
         rng_algorithm: RngAlgorithm::ChaCha,
         rng_seed: RngSeed::Fixed(seed),
